@@ -697,6 +697,9 @@ def sop(it, op, x, y):
             pass
         except OverflowError:
             pass
+    if isinstance(op, ast.Div) and dx == 'int' and dy == 'int':
+        # python int / int: the exact rational (z3 real division); int / 0 is not modelled (ZeroDivisionError in python)
+        return X.fin(z3.ToReal(zi(x)) / z3.ToReal(zi(y)))
     if isinstance(op, ast.Div) or 'float' in (dx, dy):
         a, b = _fl(x), _fl(y)
         if isinstance(op, ast.Add):
@@ -2475,7 +2478,9 @@ def _math_ceil(it, args, kw):
         return math.ceil(v)
     if X.is_x(v):
         r = X.r(v)
-        return -z3.ToInt(-r)
+        c = -z3.ToInt(-r)
+        it.run.__dict__.setdefault('jx_ceils', []).append(c)        # ghost: lets a contract name the rounded value
+        return c
     if z3.is_expr(v) and v.sort() == z3.IntSort():
         return v
     raise Unsupported('math.ceil of %r' % (v,))
